@@ -182,6 +182,9 @@ def gamma2(tier, seed):
             macros = [{"name": "@rep", "args": ["p-cnt"], "pattern": [mk(form)]}]
             doc = doc_of(["push", {"@rep": None, "p-cnt": cnt}, "ret"], extra={"macros": macros})
             out.append({"id": f"g2/{kind}/macro_arg/{val}", "doc": doc, "pattern": ["push", mk(val), "ret"], "feature": f"times_{kind}_macro_arg"})
+    # a ranged repetition INSIDE the argument of a $not (followed by something): every run length counts
+    for kind, mk, plain in bodies[:4]:
+        out.append({"id": f"g2/{kind}/inside_not", "doc": doc_of(["push", {"$not": [{"$and": [mk({"min": 1, "max": 3}), "ret"]}]}, "call"]), "feature": f"times_{kind}_inside_not", "lemmas": ("AEM", "EA", "NE", "VAL")})
     # full-match flags do not interact with repetition
     out.append({"id": "g2/item/fm", "doc": doc_of(["push", {"mov": ["a"], "times": {"min": 0, "max": 2}}, "ret"], True, True), "feature": "times_item_sib"})
     for mf, of in ((True, False), (False, True)):
@@ -271,6 +274,10 @@ def gamma3(tier, seed):
                 out.append({"id": f"g3/op/{op}/{width}/{tail}", "doc": doc_of(pat, fm, fm), "feature": f"op_{op[1:]}"})
             pat = [{"mov": ["c", {op: kids}]}, "d"]
             out.append({"id": f"g3/op/{op}/{width}/after", "doc": doc_of(pat, fm, fm), "feature": f"op_{op[1:]}"})
+    # a repeated sequence whose first AND last children are operator groups (instruction and operand level)
+    AO = {"$and": [{"$or": ["b", "c"]}, {"$or": ["e", "f"]}], "times": 2}
+    out.append({"id": "g3/ins/and_of_ors_times", "doc": doc_of(["a", AO, "d"]), "feature": "ins_and_of_groups_repeated"})
+    out.append({"id": "g3/ins/and_of_anyorders_times", "doc": doc_of(["a", {"$and": [{"$and_any_order": ["b", "c"]}, {"$or": ["e", "f"]}], "times": {"min": 1, "max": 2}}, "d"]), "feature": "ins_and_of_groups_repeated"})
     # the documented <hex>h operand spelling inside operand-level operators: must behave exactly like the name 0x<hex>
     for op in OPS3:
         for kids in (["10h", "20h"], ["rbx", "3h"], ["ah", "b"]):
